@@ -983,7 +983,8 @@ func valueArgs(spec *TypeAttr, v cty.Value) []string {
 		}
 		return args
 	case v.Type() == cty.String:
-		return []string{strconv.Quote(v.AsString())}
+		// Quote the string as an HCL literal (escapes template sequences as well).
+		return []string{string(hclwrite.TokensForValue(v).Bytes())}
 	case v.Type() == cty.Number && spec.Kind == reflect.Int:
 		iv, _ := v.AsBigFloat().Int64()
 		return []string{strconv.FormatInt(iv, 10)}
